@@ -29,3 +29,13 @@ func (i *Interface) VerifWriteCache() map[string]record.Record {
 	}
 	return out
 }
+
+// VerifWriteCacheLocked reports whether the lock of the delayed write set is held right now
+// (by a flush in progress): a Put at this moment would have to wait for it.
+func (i *Interface) VerifWriteCacheLocked() bool {
+	if i.writeCacheLock.TryLock() {
+		i.writeCacheLock.Unlock()
+		return false
+	}
+	return true
+}
